@@ -1,2 +1,34 @@
-// Package hdf5 is a pure-Go stand-in for gonum.org/v1/hdf5 (no libhdf5 in this sandbox).
+// Package hdf5 is a pure-Go stand-in for gonum.org/v1/hdf5 (this sandbox has no libhdf5).
+//
+// It is a MODEL of the library and therefore part of the trusted base of properties C07/C08: it implements exactly the
+// API subset that github.com/flowmatters/openwater-core/io (and cmd/ow-sim, cmd/ow-inspect) use, with the semantics
+// of HDF5 written from the HDF5 reference manual and of the gonum wrapper written from its source
+// (gonum.org/v1/hdf5@v0.0.0-20210714002203-8c5d23bc6946), including the places where the wrapper itself panics
+// (`&dims[0]` on an empty slice) and the fact that gonum's Dataset.Read/Write pass the DATASET's datatype as the
+// memory datatype, so the buffer is copied byte for byte without conversion (see dataset.go).
+//
+// What is modelled
+//   - a file = a tree of groups and datasets; a dataset = (datatype, dims, raw little-endian bytes, row-major);
+//     files are (re)written atomically (temp file + rename) on File.Close / Flush / CreateFile in a private
+//     on-disk format (magic line + gob), so that separate processes exchange files through the same stub;
+//   - simple dataspaces, the "all" and "none" selections and ONE regular hyperslab with H5S_SELECT_SET:
+//     along each dimension the selected coordinates are offset + k*stride + b, k < count, b < block; the selection is
+//     traversed in row-major (C) order of coordinates; a selection may be made beyond the extent, the error is raised
+//     by the transfer (H5Dread/H5Dwrite: "selection+offset not within extent"); count 0 or block 0 selects nothing;
+//     stride 0 and overlapping blocks (count > 1, stride < block) are refused;
+//   - H5Dread/H5Dwrite: the numbers of selected elements of memory and file space must agree, both selections must
+//     lie within their extents; a nil memory space means "same space and selection as the file space", a nil file space
+//     means the whole dataset; a new dataset reads as zeros (default fill value);
+//   - datatypes: the native integer and floating-point types with their C sizes on LP64 Linux (Go int/uint map to
+//     H5T_NATIVE_INT/UINT = 4 bytes, exactly as gonum's NewDataTypeFromType does) and fixed-length strings;
+//   - property lists are inert (deflate / chunk are accepted and ignored).
+//
+// What is NOT modelled: attributes, tables, compound / variable-length / reference types, links, extendible
+// datasets, datatype conversion (gonum never asks for one), the delayed close of a file that still has open
+// objects (the stub persists at File.Close), libhdf5's refusal of a deflate filter on a non-chunked dataset.
+// Where the C library would read or write memory out of bounds (buffer smaller than the memory selection) the stub
+// returns an error instead.
+//
+// Every entry point that stands for one or more libhdf5 calls first calls Hook (when non-nil) with the name of the C
+// function and whether the call can modify a file; the harness uses it to assert the caller's lock state.
 package hdf5
